@@ -56,9 +56,12 @@ func TestMain(m *testing.M) {
 		"parse-rebuilt", "legacy-adapter", "second-key", "prim-built-after-flip", "handle-mem-read", "handle-binary", "handle-json",
 		"handle-encrypted", "handle-public", "handle-nosecrets", "derived-handle", "old-output-reaccepted", "subtle-built",
 		"odd-encoding", "odd-encoding-accepted", "odd-encoding-refused", "stream-aad-flipped-before-first-write", "stream-chunk-flipped-after-write",
-		"stream-aad-flipped-before-first-read", "stream-readbuf-flipped-after-read", "read-short-buffer-big-spare", "read-zero-len-buffer", "write-zero-len-chunk")
+		"stream-aad-flipped-before-first-read", "stream-readbuf-flipped-after-read", "read-short-buffer-big-spare", "read-zero-len-buffer", "write-zero-len-chunk",
+		"replay-produce-after-overwrite", "replay-accept-after-overwrite", "replay-reference-checked")
 	if core.Thorough() {
 		core.DeclareProbes("pooled-key")
+	} else {
+		core.DeclareProbes("quick-slow-entry", "pooled-key")
 	}
 	core.Main(m, prop, "memory", map[string]string{
 		"key / parameters constructors and accessors, protoserialization, keyset.Handle / Manager, readers and writers, factories, primitives": "real",
@@ -89,7 +92,29 @@ var (
 	entryList  []entry
 	stubList   []entry
 	subtleList []entry
+	slowList   []entry // quick tier only: fast pooled Cost-2 entries admitted for a small share of runs
 )
+
+// quickSlow: Cost-2 entries whose pooled keys and operations are fast enough for a few percent of quick runs:
+// SLH-DSA-128f (sign ~40 ms; not in the watch build, where every statement of the signature passes the hook),
+// 2048-bit RSA signatures incl. JWT, composite ML-DSA with 3072-bit RSA.
+func quickSlow(e catalog.Entry) int {
+	switch e.KeyType {
+	case "slhdsa":
+		if strings.Contains(e.Name, "-128f/") && !watching {
+			return 3 // weight
+		}
+	case "rsassapkcs1", "rsassapss", "jwtrsassapkcs1", "jwtrsassapss":
+		if strings.Contains(e.Name, "n2048") {
+			return 1
+		}
+	case "compositemldsa":
+		if strings.Contains(e.Name, "RSA3072") {
+			return 1
+		}
+	}
+	return 0
+}
 
 func entries() ([]entry, []entry, []entry) {
 	if entryList != nil {
@@ -100,10 +125,13 @@ func entries() ([]entry, []entry, []entry) {
 		subtleList = append(subtleList, entry{name: "subtle/" + sc.op, class: "subtle", keyType: sc.op, variant: "RAW", sub: sc})
 	}
 	for _, e := range catalog.All() {
+		c := e
 		if !core.Thorough() && (e.Cost > 1 || catalog.Pooled(e)) {
+			for i := quickSlow(e); i > 0; i-- {
+				slowList = append(slowList, entry{name: e.Name, class: string(e.Class), keyType: e.KeyType, variant: e.Variant, cat: &c})
+			}
 			continue
 		}
-		c := e
 		entryList = append(entryList, entry{name: e.Name, class: string(e.Class), keyType: e.KeyType, variant: e.Variant, cat: &c})
 	}
 	for _, class := range []string{"mac", "aead", "daead", "signature", "hybrid"} {
@@ -147,13 +175,14 @@ const (
 	sOp
 	sSecondKey
 	sStream
+	sReplay
 	sCount
 )
 
-var stepNames = [sCount]string{"sweep", "ctor", "parse", "h-mgr", "h-mem", "h-bin", "h-json", "h-enc", "h-pub", "prims", "op", "key2", "stream"}
+var stepNames = [sCount]string{"sweep", "ctor", "parse", "h-mgr", "h-mem", "h-bin", "h-json", "h-enc", "h-pub", "prims", "op", "key2", "stream", "replay"}
 
 // step groups for the run signature
-var stepGroup = [sCount]byte{'a', 'c', 'p', 'h', 'i', 'i', 'i', 'i', 'h', 'o', 'o', 'k', 's'}
+var stepGroup = [sCount]byte{'a', 'c', 'p', 'h', 'i', 'i', 'i', 'i', 'h', 'o', 'o', 'k', 's', 'o'}
 
 type stepSpec struct{ kind, arg int }
 
@@ -174,6 +203,7 @@ type plan struct {
 	flipXor   []byte
 	flipWhole []bool
 	flipSpare []bool
+	slow      bool // a Cost-2 entry admitted to the quick tier
 	// shapes of multi-step operations and of constructor inputs
 	readLens []int // lengths of Write chunks and of caller-supplied Read buffers (cycled)
 	perturb  []int // per constructor byte input: 0..10 as read from the key, 11.. an unusual encoding (cycled)
@@ -186,11 +216,15 @@ var readLenChoices = []int{64, 0, 1, 7, 16, 48, 100, 300, 1024, 4096, 5000}
 func drawPlan(t *rapid.T) *plan {
 	cat, stubs, subs := entries()
 	p := &plan{}
-	switch rapid.IntRange(0, 9).Draw(t, "entryKind") {
-	case 9:
+	slow := false
+	switch k := rapid.IntRange(0, 39).Draw(t, "entryKind"); {
+	case k >= 36:
 		p.ent = stubs[rapid.IntRange(0, len(stubs)-1).Draw(t, "stub")]
-	case 8:
+	case k >= 32:
 		p.ent = subs[rapid.IntRange(0, len(subs)-1).Draw(t, "subtle")]
+	case k == 31 && len(slowList) > 0:
+		p.ent = slowList[rapid.IntRange(0, len(slowList)-1).Draw(t, "slowEntry")]
+		slow = true
 	default:
 		p.ent = cat[rapid.IntRange(0, len(cat)-1).Draw(t, "entry")]
 	}
@@ -200,8 +234,12 @@ func drawPlan(t *rapid.T) *plan {
 	p.dataSeed = rapid.Uint64().Draw(t, "dataSeed")
 	n := rapid.IntRange(0, 10).Draw(t, "nSteps")
 	for i := 0; i < n; i++ {
-		p.steps = append(p.steps, stepSpec{kind: rapid.IntRange(0, sCount-1).Draw(t, "step"), arg: rapid.IntRange(0, 7).Draw(t, "arg")})
+		p.steps = append(p.steps, stepSpec{kind: rapid.IntRange(0, sCount-1).Draw(t, "step"), arg: rapid.IntRange(0, 9).Draw(t, "arg")})
 	}
+	if slow && len(p.steps) > 2 {
+		p.steps = p.steps[:2] // short histories keep these runs cheap
+	}
+	p.slow = slow
 	p.msgLens = rapid.SliceOfN(rapid.SampledFrom(lenChoices), 1, 4).Draw(t, "msgLens")
 	p.auxLens = rapid.SliceOfN(rapid.SampledFrom(lenChoices[:8]), 1, 3).Draw(t, "auxLens")
 	p.spares = rapid.SliceOfN(rapid.SampledFrom(spareChoices), 1, 4).Draw(t, "spares")
@@ -275,6 +313,9 @@ type rec struct {
 
 type abortB struct{}
 
+// callRec: the caller buffers of one primitive call.
+type callRec struct{ ctB, msgB, auxB *Buf }
+
 type msgRef struct {
 	call int
 	keep proto.Message
@@ -320,8 +361,11 @@ type world struct {
 	pertCtr   int  // constructor byte inputs seen (indexes plan.perturb)
 	readCtr   int  // indexes plan.readLens
 	chainOdd  bool // an input of the constructor chain in progress was given an unusual encoding
-	tolerate  bool // an operation of a lenient primitive is in progress
-	oddKeys   bool // a key built from an unusual encoding joined the run's keys: refusals further down are observations
+	mayReject bool // the accept in progress is given altered content on purpose
+	// buffers of the most recent produce / accept call (for the replay step)
+	lastProduce, lastAccept *callRec
+	tolerate                bool // an operation of a lenient primitive is in progress
+	oddKeys                 bool // a key built from an unusual encoding joined the run's keys: refusals further down are observations
 
 	// statistics
 	flips     map[string]int
@@ -1580,7 +1624,7 @@ func (w *world) stepPrims(arg int) *prim {
 }
 
 // useOnce: one produce and one accept with caller buffers of the drawn shapes.
-func (w *world) useOnce(p *prim, msg, aux []byte, auxNil bool, keepSample, flippable bool) {
+func (w *world) useOnce(p *prim, msg, aux []byte, auxNil bool, keepSample, flippable bool) []byte {
 	w.tolerate = p.lenient
 	defer func() { w.tolerate = false }()
 	opP := p.opP
@@ -1594,6 +1638,7 @@ func (w *world) useOnce(p *prim, msg, aux []byte, auxNil bool, keepSample, flipp
 	} else {
 		w.r.Probe("nil-aux")
 	}
+	w.lastProduce, w.lastAccept = &callRec{msgB: mb, auxB: ab}, nil
 	if len(msg) == 0 {
 		w.r.Probe("zero-len-msg")
 	}
@@ -1610,7 +1655,7 @@ func (w *world) useOnce(p *prim, msg, aux []byte, auxNil bool, keepSample, flipp
 		if !w.faulted && !p.lenient {
 			w.fatalf("%s of %s failed in the pristine world: %v", opP, p.ent.name, err)
 		}
-		return
+		return nil
 	}
 	if spM >= len(out) && spM > 0 {
 		w.r.Probe("spare-fits-output")
@@ -1645,6 +1690,7 @@ func (w *world) useOnce(p *prim, msg, aux []byte, auxNil bool, keepSample, flipp
 			w.r.Probe("derived-handle")
 		}
 	}
+	return pristine
 }
 
 // obsOutput logs a produced output. Deterministic classes must repeat themselves byte for byte; randomized ones
@@ -1699,6 +1745,7 @@ func (w *world) acceptOnce(p *prim, out, msg, aux []byte, auxNil bool, flippable
 		ab = w.in(opA, "associated data", aux, w.nextSpare())
 		auxS = ab.Slice()
 	}
+	w.lastAccept = &callRec{ctB: cb, msgB: mb, auxB: ab}
 	var pt []byte
 	var err error
 	func() {
@@ -1713,7 +1760,7 @@ func (w *world) acceptOnce(p *prim, out, msg, aux []byte, auxNil bool, flippable
 	w.obsErr(opA, "err", err)
 	w.setAdd("ops", opA)
 	if err != nil {
-		if !w.faulted && !p.lenient {
+		if !w.faulted && !p.lenient && !w.mayReject {
 			w.fatalf("%s of %s rejects what %s produced in the pristine world: %v", opA, p.ent.name, p.opP, err)
 		}
 		return
@@ -1722,7 +1769,7 @@ func (w *world) acceptOnce(p *prim, out, msg, aux []byte, auxNil bool, flippable
 		call := w.newCall()
 		w.out(opA, call, pt, flippable)
 		w.obs(opA, "plaintext", pt)
-		if !w.faulted && !p.lenient && !bytes.Equal(pt, msg) {
+		if !w.faulted && !p.lenient && !w.mayReject && !bytes.Equal(pt, msg) {
 			w.fatalf("%s of %s returns another plaintext in the pristine world", opA, p.ent.name)
 		}
 	}
@@ -1785,6 +1832,8 @@ func (w *world) step(s stepSpec) {
 	if w.pl.ent.sub != nil {
 		// subtle primitives have no key objects and no handles: every step is about primitives
 		switch s.kind {
+		case sReplay:
+			w.stepReplay(s.arg)
 		case sStream:
 			w.stepStream(s.arg)
 		case sOp, sSweep, sCtor, sParse:
@@ -1844,6 +1893,8 @@ func (w *world) step(s stepSpec) {
 		w.stepOp(s.arg)
 	case sStream:
 		w.stepStream(s.arg)
+	case sReplay:
+		w.stepReplay(s.arg)
 	case sSecondKey:
 		if len(w.keys) < 6 && w.pl.ent.cat != nil {
 			w.newKey(false)
@@ -1919,6 +1970,9 @@ func runWorld(t *rapid.T, r *core.Run, pl *plan, twin *world) *world {
 func run(t *rapid.T) {
 	r := core.Begin(t)
 	pl := drawPlan(t)
+	if pl.slow {
+		r.Probe("quick-slow-entry")
+	}
 	r.ObsS("entry", pl.ent.name)
 	if r.Tracing() {
 		var sb strings.Builder
